@@ -137,10 +137,11 @@ def distribution(cases):
 
 
 def signature(case, result):
-    i, o = case["in"], case["obs"]
+    # one report per kind of failure (keeps shrinking time bounded)
     if case["grp"] != "run":
         return "enum"
-    return "%s/%s/ran=%s/panic=%s" % (i["mode"], "raw" if i["raw"] else "std", o["ran"], o["panic"])
+    o = case["obs"]
+    return "run/panic" if o["panic"] else ("run/ran" if o["ran"] else "run/validation")
 
 
 def shrink_candidates(inp, grp):
